@@ -276,6 +276,18 @@ class CallMixin:
             v = args[0]
             if isinstance(v, VRef) and isinstance(v.typ, ty.TList):
                 return self.list_copy(v)
+            if isinstance(v, VView) and v.kind == 'values' and node is not None and len(node.args) == 1 \
+                    and isinstance(node.args[0], ast.Call) and isinstance(node.args[0].func, ast.Attribute) \
+                    and isinstance(node.args[0].func.value, (ast.Name, ast.Attribute)):
+                # list(d.values()) is read as [d[k] for k in d] (d a name / attribute chain: evaluated twice, no effect)
+                d = node.args[0].func.value
+                comp = ast.ListComp(
+                    elt=ast.Subscript(value=d, slice=ast.Name(id='k__values', ctx=ast.Load()), ctx=ast.Load()),
+                    generators=[ast.comprehension(target=ast.Name(id='k__values', ctx=ast.Store()), iter=d, ifs=[],
+                                                  is_async=0)])
+                ast.copy_location(comp, node)
+                ast.fix_missing_locations(comp)
+                return self.eval(comp)
             if isinstance(v, (VView,)) or (isinstance(v, VRef) and isinstance(v.typ, ty.TDict)):
                 return self.list_of_keys(v)
             raise Unsupported('list(x)')
